@@ -323,6 +323,33 @@ def oracle(ck, tier, deep):
                          dict(rep, border_change=float(border)), f"border pixel changed by {border:.3g} with a constant correction")
 
 
+def integer_coordinates(ck, tier):
+    """coordinates are numbers whatever their dtype: integer arrays (pixel offsets in a narrow type) give the polar coordinates of
+    the equal floats (repair F69: x**2 + y**2 wrapped around in int8 / int16)"""
+    from abel.tools import polar
+    rng = np.random.default_rng(seed() + 1969)
+    for cast in (np.int8, np.uint8, np.int16, np.uint16, np.int32, np.int64, np.float32):
+        info = np.iinfo(cast) if np.issubdtype(cast, np.integer) else None
+        hi = min(info.max if info else 3000, 30000)
+        lo = max(info.min if info else -3000, -30000)
+        x = rng.integers(lo, hi + 1, size=200).astype(cast)
+        y = rng.integers(lo, hi + 1, size=200).astype(cast)
+        x[:2], y[:2] = (hi, hi), (hi, lo)
+        ck.count(("S.int-coords", np.dtype(cast).name), suite="S.coords")
+        try:
+            r, t = polar.cart2polar(x, y)
+            rf, tf = polar.cart2polar(x.astype(np.float64), y.astype(np.float64))
+            r0, t0 = polar.cart2polar(x[0], y[0])
+        except Exception as e:
+            ck.violation(dict(site="cart2polar", clause="integer-coordinates-exception"), dict(dtype=np.dtype(cast).name), f"{type(e).__name__}: {e}")
+            continue
+        tol = 1e-12 if cast is not np.float32 else 1e-6
+        if not (np.allclose(r, rf, rtol=tol, atol=0) and np.allclose(t, tf, rtol=0, atol=tol) and abs(float(r0) - float(rf[0])) <= tol * float(rf[0])):
+            k = int(np.argmax(np.abs(np.asarray(r, float) - rf)))
+            ck.violation(dict(site="cart2polar", clause="integer-coordinates"), dict(dtype=np.dtype(cast).name, x=int(x[k]), y=int(y[k])),
+                         f"cart2polar of {np.dtype(cast).name} coordinates ({x[k]}, {y[k]}): r = {np.asarray(r, float)[k]:.6g}, for the equal floats {rf[k]:.6g}")
+
+
 def circular_images(ck, tier):
     from abel.tools import circularize
     # … of an already circular image: circularize_image determines the per-angle radial correction itself (both methods); the result
@@ -372,6 +399,7 @@ def run(tier):
         ck.broken.append(dict(kind="proof", module="pyabel_drv", why="driver build failed", log=log[-1500:]))
     oracle(ck, tier, deep or bool(ck.broken))
     circular_images(ck, tier)
+    integer_coordinates(ck, tier)
     return ck.finish()
 
 
